@@ -830,14 +830,34 @@ package main
 //@   trusted recursion over go/types graphs with a visited set; only the coverage of its type switch is an obligation here
 //@   case_calls *types.Alias: Rhs, recursivelyRecordUsedForReflectImpl
 //@   case_calls *types.Named: !TypeArgs, Obj, Pkg, usedForReflect, recordUsedForReflect, Origin, Underlying, Len, At, recursivelyRecordUsedForReflectImpl
-//@   case_calls *types.Struct: NumFields, Field, Pkg, Origin, Type, recordUsedForReflect, recursivelyRecordUsedForReflectImpl
+//@   case_calls *types.Struct: !NumFields, !Field, Pkg, Origin, !Type, !recordUsedForReflect, !recursivelyRecordUsedForReflectImpl
 //@   case_calls *types.Map: !Key, !Elem, recursivelyRecordUsedForReflectImpl
 //@   case_calls *types.Signature: !Params, !Results, recursivelyRecordUsedForReflectImpl
-//@   case_calls *types.Tuple: Len, At, Type, recursivelyRecordUsedForReflectImpl
+//@   case_calls *types.Tuple: !Len, !At, Type, recursivelyRecordUsedForReflectImpl
 //@ end
 
 //@ func (*reflectInspector).recordArgReflected
 //@   property C08
 //@   trusted recursion over the SSA value graph with a visited set; only the coverage of its value switch is an obligation here
-//@   case_calls *ssa.Call: Type, recursivelyRecordUsedForReflect
+//@   case_calls *ssa.Call: !Type, !recursivelyRecordUsedForReflect
+//@   case_calls *ssa.Extract: !Type, !recursivelyRecordUsedForReflect
+//@   case_calls *ssa.TypeAssert: !Type, !recursivelyRecordUsedForReflect
+//@   case_calls *ssa.Lookup: !Type, !recursivelyRecordUsedForReflect
+//@   case_calls *ssa.Phi: !Type, !recursivelyRecordUsedForReflect
+//@   case_calls *ssa.Alloc: !Type, !recursivelyRecordUsedForReflect, Referrers, recordArgReflected, make, relatedParam
+//@   case_calls *ssa.Parameter: !Type, !recursivelyRecordUsedForReflect
+//@   case_calls *ssa.Global: !Type, !recursivelyRecordUsedForReflect
+//@ end
+
+//@ hookset postpatch
+//@ hook before mvdan.cc/garble.hashWithPackage(pkg, name)
+//@   assert("the-name-searched-for-is-the-name-the-file-was-printed-with", pkg == lpkg && lpkg.ToObfuscate)
+//@ end
+
+//@ func reflectMainPostPatch
+//@   property C08
+//@   hooks postpatch
+//@   requires lpkg != nil
+//@   skip safety
+//@   unclaimed hashWithPackage/requires because the argument is a literal
 //@ end
